@@ -38,7 +38,7 @@ def meta_ref() -> Ref:
     return _META[0]
 
 
-def meta_file_unchanged(repo: str = "/repo") -> bool:
+def meta_file_unchanged(repo: str = os.environ.get("VERIF_REPO", "/repo")) -> bool:
     meta_ref()
     try:
         src = open(os.path.join(repo, "tests", "grammars", "meta.pest"), encoding="utf-8").read()
